@@ -424,6 +424,10 @@ def _base(rng, gap=None):
     gap = gap or wl.choose(rng, ['flow', 'flow', 'no_flow', 'duct_average'])
     P = gen.base_problem(length=0.4, asm_pitch=0.12, gap_model=gap,
                          bypass_fraction=float(rng.uniform(0.005, 0.05)))
+    if rng.random() < 0.4:
+        # temperature-dependent coolant: film coefficients change along the
+        # march (what is handed to the assemblies must follow)
+        P['coolant'] = wl.TDEP_NA
     return P
 
 
@@ -698,7 +702,45 @@ def run_hooked(case, res, P, feats, rng, n_steps):
             state['in_update_region'] = False
         hk.wrap(dassh.assembly.Assembly, 'update_region', pre=_enter,
                 post=_leave)
+
+        def _handed(args, kwargs):
+            # the gap temperature and film coefficient handed to the
+            # assembly are the transferred values: a uniform field around
+            # the assembly arrives unchanged, any field stays within the
+            # range of the gap cells it came from
+            r_ = state.get('r')
+            if r_ is None or r_.core.model is None:
+                return None
+            a = args[0]
+            try:
+                i = r_.assemblies.index(a)
+            except ValueError:
+                return None
+            t_gap = np.asarray(args[2] if len(args) > 2
+                               else kwargs['t_gap'], dtype=float)
+            h_gap = np.asarray(args[3] if len(args) > 3
+                               else kwargs['h_gap'], dtype=float)
+            n_g = int(r_.core._n_sc_per_asm[i])
+            for nm, got, src in (
+                    ('temperature', t_gap,
+                     np.asarray(r_.core.adjacent_coolant_gap_temp(i),
+                                dtype=float)[:n_g]),
+                    ('film coefficient', h_gap,
+                     np.asarray(r_.core.adjacent_coolant_gap_htc(i),
+                                dtype=float)[:n_g])):
+                lo, hi = float(src.min()), float(src.max())
+                eps = 1e-10 * max(abs(lo), abs(hi), 1e-300)
+                res.check('G1_handed_gap_values_within_source_range',
+                          bool(got.min() >= lo - eps and got.max() <= hi + eps),
+                          'gap %s handed to assembly %d (%.6f..%.6f) leaves '
+                          'the range of the gap cells around it (%.6f..%.6f)'
+                          % (nm, i, got.min(), got.max(), lo, hi),
+                          {'mech': 'handed_values', 'what': nm,
+                           'gap': r_.core.model})
+            return None
+        hk.wrap(dassh.assembly.Assembly, 'calculate', pre=_handed)
         inp, r = drive.build(P, d)
+        state['r'] = r
         state['building'] = False
         n_regs = sum(len(a.region) for a in r.assemblies)
         res.check('H1_every_region_map_monitored',
